@@ -290,6 +290,24 @@ def decorated_variants(rnd, mod, x, chain, k=12):
     return out
 
 
+def find_pair(mod, chain, hint):
+    """two inputs with the same compact() that validate() treats differently (directed: decorated corpus and synthesised
+    numbers, white-list members where the module has one)"""
+    rnd = random.Random(0)
+    m = mod.__name__
+    nums = corpus.valid_numbers(m, 40) + corpus.synth_valid(m, 40)
+    wl = getattr(mod, 'whitelist', None)
+    if wl:
+        nums = list(sorted(wl))[:40] + nums
+    for x in nums:
+        rx = call_real(m + ':validate', [x])
+        for y in decorated_variants(rnd, mod, x, chain, 16):
+            ry = call_real(m + ':validate', [y])
+            if outcome(rx) != outcome(ry):
+                return dict(input=x, variant=y, real=[list(rx[:2]), list(ry[:2])])
+    return None
+
+
 def outcome(res):
     return ('return', res[1]) if res[0] == 'return' else ('raise', 'ValidationError' if 'ValidationError' in res[3] else res[1])
 
@@ -301,7 +319,7 @@ def bounded(rep, tier, mods, chains):
     per = 6 if tier == 'quick' else 40
     for m in mods:
         mod = importlib.import_module(m)
-        nums = corpus.valid_numbers(m, per)
+        nums = corpus.valid_numbers(m, per) + corpus.synth_valid(m, per, int(os.environ.get('VERIF_SEED', '0') or 0))
         # near misses and garbage too
         extra = []
         for x in nums[:3]:
@@ -333,6 +351,11 @@ def check(prop, tier, args):
         mods = [m for m in mods if m.__name__ in args.modules]
     chains = {}
     undecided_mods = []
+    import json as _json
+    try:
+        ledger = set(_json.load(open(os.path.join(os.path.dirname(os.path.dirname(os.path.dirname(os.path.abspath(__file__)))), 'baseline', 'C03_syntactic.json')))['modules'])
+    except Exception:      # noqa: B902
+        ledger = set()
     for mod in mods:
         m = mod.__name__
         if m in EXCLUDED:
@@ -365,6 +388,12 @@ def check(prop, tier, args):
                     verdict, why = ok, w
                     break
                 why = w
+        if verdict is False and fl.other and m in ledger:
+            # the obligation was discharged on the pinned tree and now fails: validate() touches the raw value directly
+            pair = find_pair(mod, ch, fl.other[0])
+            rep.refuted(oid, m, 'raw argument used outside compact', 'validate() of %s now uses the raw argument directly (%s); on the pinned tree it read it only through compact()' % (m, fl.other[0][:80]),
+                        dict(function=m + ':validate', raw_use=fl.other[:3], **(pair or {})), pair is not None)
+            continue
         if verdict is True:
             rep.add(oid, 'proved', 'ast', time.time() - t0, detail=why)
             if len(rep.samples) < 4:
